@@ -107,6 +107,11 @@ def Io.setArea (io : Io) (ar : Area) (buf : List Nat) : Io :=
   | .output => { io with outputs := buf }
   | .memory => { io with memory := buf }
 
+/-- `inputs_mut().fill(0); outputs_mut().fill(0); memory_mut().fill(0)` (cold restart). -/
+def Io.zeroed (io : Io) : Io :=
+  { io with inputs := io.inputs.map (fun _ => 0), outputs := io.outputs.map (fun _ => 0),
+            memory := io.memory.map (fun _ => 0) }
+
 /-- `ensure_len(buffer, index)`: grow with zeros so that `index` is valid. -/
 def ensureLen (buf : List Nat) (index : Nat) : List Nat :=
   if buf.length ≤ index then buf ++ List.replicate (index + 1 - buf.length) 0 else buf
@@ -533,8 +538,11 @@ def step (sem : Sem σ δ) (s : RState σ δ) : Op → PRes σ δ
   | .releaseIo a =>
     { st := { s with forced := s.forced.filter (fun p => !(p.1 == a)) }, evs := [], err := none }
   | .restart m =>
+    -- restart.rs: variables and task states re-initialised, clock and cycle counter to 0, latch
+    -- cleared; a cold restart also zero-fills the three images (lengths and the hierarchical map
+    -- are kept); drivers are not called
     { st := { s with store := sem.reinit m s.store, now := 0, cycles := 0, faulted := false,
-                     lastFault := none },
+                     lastFault := none, io := if m = .cold then s.io.zeroed else s.io },
       evs := [], err := none }
   | .clearFault => { st := { s with faulted := false, lastFault := none }, evs := [], err := none }
 
